@@ -807,6 +807,7 @@ func init() {
 			"on a fresh deep copy of its input (corpus entries, hostile mutations, grammar-generated documents); its result is a sha256 over everything the calls return. " +
 			"race: 8-64 goroutines x 2-6 ops x 2 rounds under the race detector, then the same ops alone; order: seeded histories (random, windows forward/reversed, interleaved pairs, per-entry sweeps and shuffles) over a fixed pool (16 ops per entry point) against the digests computed when the process was fresh, tables compared across worker processes; " +
 			"segment: bytes of every library symbol in the writable ELF sections, and of the memory one DWARF-typed level behind every library variable, before/after a workload of >= 1 op per entry point + 150-300 random ops (a self-test write to harness-owned variables must be seen). " +
+			"independence: every ordered pair of {BinaryReader over a seeker / a ReaderAt / a plain reader, StreamLexer, NewInput(reader)}: instance A is held inside its data source's Read/ReadAt while instance B of another goroutine must obtain its (solo) result. " +
 			"non-trivial = a case that touched >= 2 distinct entry points (race, order), a completed snapshot comparison (segment), a completed probe",
 		Assume: []string{
 			"'private data' = every execution gets fresh copies of its byte inputs and its own scratch/destination buffers; entity maps passed to ReplaceEntities are shared read-only (maps the caller never writes)",
@@ -817,13 +818,14 @@ func init() {
 			"the statement's 'static list of assignments to package-level variables' is outside runtime monitoring and is replaced by M-seg + the exported-variable digest (DESIGN §4 C20 Limits)",
 			"'all interleavings' is sampled: the race detector decides on happens-before, so every pair of conflicting accesses executed by two goroutines of one case is reported irrespective of timing; coverage is the entry x entry matrix in the evidence",
 		},
-		Required: []string{"probes", "race.cases", "race.ops.concurrent", "order.executions", "order.reference_tables", "segment.snapshots_compared", "segment.selftest.detected", "segment.deep_regions_compared", "exported.checks", "matrix.entry×entry", "segment.symbols"},
+		Required: []string{"probes", "race.cases", "race.ops.concurrent", "order.executions", "order.reference_tables", "segment.snapshots_compared", "segment.selftest.detected", "segment.deep_regions_compared", "exported.checks", "matrix.entry×entry", "segment.symbols", "independence.pairs"},
 		Streams: []fw.Stream{
 			// order first: its first case computes the reference digests before anything else of C20 ran in the process
 			{Name: "order", Quick: 24000, Thorough: 1440000, Run: c20Order, NoRace: true},
 			{Name: "segment", Quick: 96, Thorough: 6400, Run: c20Segment, NoRace: true},
 			{Name: "probes", Quick: np, Thorough: np * 4, Run: c20Probe, NoRace: true},
 			{Name: "race-probes", Quick: np, Thorough: np * 8, Run: c20Probe, Race: true},
+			{Name: "independence", Quick: 25, Thorough: 100, Run: c20Independence, Race: true},
 			{Name: "race", Quick: 1200, Thorough: 60000, Run: c20Race, Race: true},
 		},
 	})
